@@ -568,7 +568,7 @@ func runAPICase(ctx context.Context, w *rec.Writer, fm *farm, s *scen.Scenario, 
 	w.Stat("contextual_max", len(perm))
 
 	// ---- queries
-	subjects := s.Subjects(r, 3)
+	subjects := s.SubjectsAnyIDs(r, 3)
 	objects := s.Objects(subjects...)
 	var cand []checkQ
 	for _, o := range objects {
